@@ -1225,6 +1225,40 @@ impl<'u> Sem<'u> {
         Ok((r?, outs))
     }
 
+    /// Run an entry point with by-value arguments and return the final values of the variables of its outermost
+    /// block (a Metal entry point holds the program's static variables as locals)
+    pub fn run_capture(&mut self, f: &'u FuncD, args: Vec<V>) -> R<HashMap<String, V>> {
+        if args.len() != f.params.len() {
+            return unsupported("argument count");
+        }
+        let saved = std::mem::take(&mut self.scopes);
+        self.scopes.push(HashMap::new());
+        let mut result = (|| {
+            for (p, v) in f.params.iter().zip(args.into_iter()) {
+                let pt = self.with_dims(self.ty(&p.ty)?, &p.dims);
+                self.declare(&p.name, pt, v, false);
+            }
+            let ret_ty = self.ty(&f.ret)?;
+            self.ret_stack.push(ret_ty);
+            self.ns_stack.push(namespace_of(&f.name));
+            let flow = self.stmts(&f.body);
+            self.ns_stack.pop();
+            self.ret_stack.pop();
+            flow?;
+            let mut out = HashMap::new();
+            let places: Vec<(String, Place)> = self.scopes.last().map(|s| s.iter().map(|(k, p)| (k.clone(), p.clone())).collect()).unwrap_or_default();
+            for (k, p) in places {
+                out.insert(k, self.read(&p)?);
+            }
+            Ok(out)
+        })();
+        self.scopes = saved;
+        if let Ok(m) = result.as_mut() {
+            let _ = m;
+        }
+        result
+    }
+
     /// Run a method of struct `si` on an object; returns (return value, parameter cells, final object)
     pub fn run_method(&mut self, si: usize, f: &'u FuncD, this: V, args: Vec<Arg>) -> R<(V, Vec<Option<V>>, V)> {
         let ty = Ty::Struct(si);
